@@ -1,7 +1,7 @@
 """C05 -- score-ballot elections enforce their limits and elect the top m totals."""
 import random, os, json, itertools, multiprocessing as mp
 from fractions import Fraction as F
-from ..common import Result, OUT, scratch, run_tlc, Machinery, tlc_error_excerpt, rat, quiet, scores_json, groups
+from ..common import Result, OUT, scratch, run_tlc, Machinery, tlc_error_excerpt, rat, quiet, scores_json, groups, _tiebreaks_json
 from .. import domains as D
 from ..calltrace import judge_calls
 
@@ -87,7 +87,7 @@ def work(inp):
             profs = [obj._profile] + [p for (o, p, t) in E._LOG if o is obj]
             for st, p in zip(obj.election_states, profs):
                 rounds.append({"elected": groups(st.elected, inv), "remaining": groups(st.remaining, inv), "scores": scores_json(st.scores, inv),
-                               "tiebreaks": sorted([{"tied": sorted(inv[c] for c in kk), "order": groups(v, inv)} for kk, v in st.tiebreaks.items()], key=lambda t: t["tied"]),
+                               "tiebreaks": _tiebreaks_json(st.tiebreaks, inv),
                                "bag": sbag_json(p, inv)})
         return json.dumps({"error": err, "rounds": rounds})
 
